@@ -171,8 +171,12 @@ func (m *Module) FinalizeCase(c *space.Case) {
 		imp := m.modName() + "/cases/" + c.ID + "/" + structDir(c)
 		c.Cfg.TargetPkg = TFPkg(c)
 		if c.Variant == "short+override" {
-			c.Cfg.DefaultPkg = "structs"
-			c.Cfg.ImportPathOverrides = map[string]string{"structs": imp}
+			short := "structs"
+			if c.ShortDefaultPkg != "" {
+				short = c.ShortDefaultPkg
+			}
+			c.Cfg.DefaultPkg = short
+			c.Cfg.ImportPathOverrides = map[string]string{short: imp}
 		} else {
 			c.Cfg.DefaultPkg = imp
 		}
